@@ -56,7 +56,10 @@ _C01_REQ = ["blocks_phase0", "blocks_altair", "blocks_bellatrix", "blocks_capell
             "tlc_intent_exit_honoured", "tlc_intent_exit2_honoured", "tlc_intent_pslash_honoured", "tlc_intent_aslash_honoured",
             "tlc_intent_slash_exiting_honoured", "tlc_intent_bls_change_honoured", "tlc_intent_deposit_new_honoured",
             "tlc_intent_deposit_bad_pop_honoured", "tlc_intent_topup_honoured", "tlc_intent_topup_exited_honoured",
-            "tlc_intent_topup_partial_honoured"]
+            "tlc_intent_topup_partial_honoured", "tlc_intent_aslash_mixed_honoured",
+            # attester slashings whose intersection mixes slashable and non-slashable validators (valid: skipped)
+            "attester_slashing_with_unslashable_member", "attester_slashing_includes_already_slashed",
+            "attester_slashing_includes_not_yet_active", "attester_slashing_includes_withdrawable"]
 REQUIRED = {"C02": {"quick": _C02_REQ, "thorough": _C02_REQ}, "C01": {"quick": _C01_REQ, "thorough": _C01_REQ}}
 
 JAVA_OPTS = "-Xss512m -XX:TieredStopAtLevel=1 -XX:ParallelGCThreads=2 -XX:CICompilerCount=1"
@@ -245,8 +248,6 @@ def run_check(pid, tier, seed, replay=None, family="idle,chain,tlc"):
     results = lib.parallel_map(lambda f: validate_file(f, strict=False), files, workers=min(16, lib.NCPU))
     counters = stats["counters"]
     missing = [c for c in REQUIRED[pid][tier] if counters.get(c, 0) == 0]
-    if missing:
-        raise lib.InfraError("vacuity guard: these sub-transitions were never exercised: %s" % ", ".join(missing))
     n, distinct, nontrivial, samples, histories = summarize_events(files, kind)
     if n == 0:
         raise lib.InfraError("no %s events were recorded" % kind)
@@ -264,6 +265,10 @@ def run_check(pid, tier, seed, replay=None, family="idle,chain,tlc"):
                 else:
                     violations.append((r["file"], {"line": k["line"], "kind": kind,
                                                    "diff": "deviation %s (not a listed finding of %s)" % (unlisted, pid)}))
+    if missing and not violations:
+        # (with violations the run is not a claim that the property held; a deviating zrnt may also be the very
+        # reason why a class was not reached, e.g. honest blocks it rejects)
+        raise lib.InfraError("vacuity guard: these sub-transitions were never exercised: %s" % ", ".join(missing))
     rejected = [(os.path.basename(r["file"]), r["modelreject"][:5]) for r in results if r["modelreject"]]
     if rejected and not violations and not any(r["mismatches"] for r in results):
         # nothing deviates anywhere, yet the model refuses blocks the harness built as valid
